@@ -80,6 +80,41 @@ func BoundsLoopBad(b []byte, n int) int {
 	return s
 }
 
+// R-LOOP, interprocedural: a decoder that hands its input back on failure
+func takeOne(b []byte) ([]byte, error) {
+	if len(b) == 0 || b[0] == 0xff {
+		return b, errBad
+	}
+	return b[1:], nil
+}
+
+func takeOneVia(b []byte) ([]byte, error) { return takeOne(b) }
+
+func LoopEchoOK(b []byte) (n int, err error) {
+	for len(b) > 0 {
+		b, err = takeOneVia(b)
+		if err != nil {
+			return n, err
+		}
+		n++
+	}
+	return n, nil
+}
+
+func LoopEchoBad(b []byte, lenient bool) (n int, err error) {
+	for len(b) > 0 {
+		b, err = takeOneVia(b)
+		if err != nil {
+			if lenient {
+				continue
+			}
+			return n, err
+		}
+		n++
+	}
+	return n, nil
+}
+
 // R-LOOP
 func LoopOK(b []byte) int {
 	n := 0
